@@ -86,9 +86,25 @@ def run(prop_id, modname, jobs_fn, meta, argv=None):
     if procs == 1:
         results = [_run_job((modname, j)) for j in jobs]
     else:
+        # a worker that dies (OOM kill, signal) must not hang the check: the executor reports a broken pool, the jobs
+        # without a result are then run one by one in this process
+        from concurrent.futures import ProcessPoolExecutor
+        from concurrent.futures.process import BrokenProcessPool
         ctx = mp.get_context(os.environ.get("VERIF_MP", "fork"))
-        with ctx.Pool(procs) as pool:
-            results = pool.map(_run_job, [(modname, j) for j in jobs], chunksize=1)
+        results = [None] * len(jobs)
+        try:
+            with ProcessPoolExecutor(max_workers=procs, mp_context=ctx) as pool:
+                futs = [pool.submit(_run_job, (modname, j)) for j in jobs]
+                for i, f in enumerate(futs):
+                    try:
+                        results[i] = f.result()
+                    except BrokenProcessPool:
+                        raise
+        except BrokenProcessPool:
+            print("note: a worker process died; finishing the remaining jobs sequentially", flush=True)
+        for i, j in enumerate(jobs):
+            if results[i] is None:
+                results[i] = _run_job((modname, j))
     # ---- aggregate -------------------------------------------------------------------------
     agg = {"paths": 0, "feas_queries": 0, "obligations": 0, "rewriter": 0, "z3_unsat": 0,
            "cvc5_unsat": 0, "unknown": 0, "queries": 0, "solver_s": 0.0, "validated": 0,
